@@ -282,3 +282,112 @@ def all_impls(ctx, report, facts, config, pfx, label_prefix="", only_kinds=("lea
         else:
             report.guard(pfx + ".LEAF", leaf, ctx, report, pfx + ".LEAF", facts, config, im, bodies, label)
     return counts
+
+
+# ------------------------------------------------------------------ the derive macro's own source
+
+NON_FILTERING = frozenset(["map", "cloned", "copied", "enumerate", "inspect", "by_ref", "iter", "iter_mut", "into_iter", "deref", "as_ref", "borrow",
+                           "as_slice", "clone", "to_vec", "into_vec", "collect_vec", "peekable", "fuse"])
+
+
+def derive_source(ctx, report, rule, facts, config):
+    """The generated `setup`, `fetch`, `reads` and `writes` repeat one piece of code per entry of some list (`#( .. )*` in
+    quote!).  Every such list has one entry per member of the struct the macro is applied to: it is the member list itself, or
+    it is built from it by a full traversal that contributes exactly one entry per element on every way (map + collect, a
+    loop with one unconditional push, `vec![x; that list's length]`).  A list that was filtered, de-duplicated or cut on the
+    way would make a generated method skip a member that `fetch` still borrows."""
+    from . import semq as Q
+    from .worldrules import _deep_all
+    b = facts.one("shred_derive::impl_system_data")
+    report.touched(b, config)
+    ev, ends = Q.sem(ctx, facts, b)
+    rets = Q.returns(ends)
+    n_lists = 0
+    problems = []
+
+    def members(t):
+        """`t` is (a view of) the member list of the input: reached from the macro's argument by projections only."""
+        t = Q.strip(ev, t)
+        while isinstance(t, tuple) and t and t[0] in ("field", "variant", "proj", "cast"):
+            t = Q.strip(ev, t[2] if t[0] == "cast" else t[1])
+        return t == ("param", 1)
+
+    def complete(e, t, loops, depth=0):
+        if depth > 8:
+            return "the list is built in too many steps to follow"
+        t = Q.strip(ev, t)
+        # adaptors that keep every element
+        while isinstance(t, tuple) and t and t[0] == "call":
+            c = ev.callee(t[1])
+            if c is not None and not c.local and c.name in NON_FILTERING and t[2] and not [L for L in loops if L.site == t[1]]:
+                t = Q.strip(ev, t[2][0])
+            else:
+                break
+        if members(t):
+            return None
+        if isinstance(t, tuple) and t and t[0] == "agg" and t[2] == "std::ops::Range::Range" and len(t[3]) == 2 and t[3][0] == ("int", 0):
+            # `for _ in 0..list.len()`: one turn per entry of that list
+            hi = Q.strip(ev, t[3][1])
+            if Q.is_call(ev, hi, "len") and hi[2]:
+                return complete(e, hi[2][0], loops, depth + 1)
+            return "a repeated list is filled once per number that is not the length of the member list"
+        if not (isinstance(t, tuple) and t and t[0] == "call"):
+            return "a repeated list is neither the member list nor built from it (%s)" % (t[:2],)
+        c = ev.callee(t[1])
+        if c is not None and not c.local and c.name == "from_elem" and len(t[2]) == 2:
+            n_ = Q.strip(ev, t[2][1])
+            if Q.is_call(ev, n_, "len") and n_[2]:
+                return complete(e, n_[2][0], loops, depth + 1)
+            return "a repeated list has a length that is not the length of the member list"
+        # collected by a modelled traversal
+        mine = [L for L in loops if L.site == t[1] and L.kind == "model:collect"]
+        if mine:
+            L = mine[0]
+            if [n for n, _ in L.stages if n not in NON_FILTERING]:
+                return "members pass through %s before entering a repeated list" % [n for n, _ in L.stages if n not in NON_FILTERING]
+            for it in L.iters:
+                if it.end == "continue":
+                    ys = [x for x in it.path.events if x[0] == "yield" and x[1] == t[1]]
+                    if len(ys) != 1:
+                        return "a way round the traversal contributes %d entries for a member (expected exactly 1)" % len(ys)
+                elif it.end in ("break", "return"):
+                    return "the traversal of the members can stop early"
+            return complete(e, L.source, loops, depth + 1)
+        # filled by pushes in a loop
+        fills = []
+        for L in loops:
+            for it in L.iters:
+                ps = [x for x in it.path.events if x[0] == "call" and not x[2].local and x[2].name in S.SHAPE_MUTATORS and x[3] and Q.strip(ev, x[3][0]) == t]
+                if ps:
+                    fills.append(L)
+                    break
+        other = [x for x in _deep_all(e.path.events) if x[0] == "call" and not x[2].local and x[2].name in S.SHAPE_MUTATORS and x[3] and Q.strip(ev, x[3][0]) == t]
+        if len(fills) == 1:
+            L = fills[0]
+            if L.kind == "while" or L.stages and [n for n, _ in L.stages if n not in NON_FILTERING]:
+                return "a repeated list is filled by a loop that is not a plain traversal"
+            inloop = 0
+            for it in L.iters:
+                ps = [x for x in it.path.events if x[0] == "call" and not x[2].local and x[2].name in S.SHAPE_MUTATORS and x[3] and Q.strip(ev, x[3][0]) == t]
+                if it.end == "continue":
+                    inloop += len(ps)
+                    if len(ps) != 1 or ps[0][2].name != "push":
+                        return "a way round the loop appends %d entries for a member (expected exactly one push)" % len(ps)
+                elif it.end in ("break", "return"):
+                    return "the traversal of the members can stop early"
+            if len(other) > inloop:
+                return "a repeated list is changed outside the loop that fills it"
+            return complete(e, L.source, loops, depth + 1)
+        return "a repeated list comes out of `%s`, which is not known to keep one entry per member" % (c.name if c is not None else "?")
+
+    for e in rets:
+        loops = Q.all_loops([e])
+        for x in _deep_all(e.path.events):
+            if x[0] == "call" and x[2].name == "quote_into_iter" and "quote::" in (x[2].path or "") and x[3]:
+                n_lists += 1
+                why = complete(e, x[3][0], loops)
+                if why:
+                    problems.append(why)
+    report.ob(rule, "one-entry-per-member", not problems and bool(rets), "; ".join(sorted(set(problems))) if problems else
+              "every list a generated method repeats over has one entry per member of the struct (%d repetitions looked at)" % n_lists, site=b.loc(), config=config)
+    report.floor(rule, "repetitions in the generated impl", n_lists, 8, config=config)
